@@ -7,15 +7,21 @@
                        [(payload value, [values that must have been Ok/Some])] — the same answer for
                        `a?; b?; Ok(x)`, `a.and(b).map(|_| x)`, `a.and_then(|_| b).map(|_| x)` and
                        `match (a, b) { (Ok(_), Ok(_)) => Ok(x), .. }`
+                       and for `for x in [a, b] { x? } Ok(..)` (a loop over a decomposable table that ran to exhaustion:
+                       one dependency per element) and `let mut e = None; for x in [a, b] { if let Err(y) = x { e.get_or_insert(y); } }
+                       match e { None => Ok(..), Some(y) => Err(y) }` (a monotone error accumulator found empty)
+  unroll(E, effs)      effects inside a loop over a table that only decomposes once private helpers are inlined
+                       (`for w in self.writers()`): one effect per element
   partitions(..)       loops that visit an in-order partition of a slice parameter (its bytes; its `split_inclusive`
                        segments) together with the test that says "this part ends with the marker"
   guard_views(..)      boolean facts implied by the guards of an effect (incl. `Option::filter(p)` being Some => p)
 """
 from .lib.mir import op_place
 from .lib.value import Slicer, subst, walk, canon, _phi, _err_like
-from .lib.guards import conditions
+import re
+from .lib.guards import conditions, edge_dominates, _discr_info
 from .lib.paths import strip
-from .lib.effects import guards_of
+from .lib.effects import guards_of, find_loops, Eff
 from .lib import iters
 
 LEAF = ('const', 'param', 'fnitem', 'constitem', 'unknown', 'closure_env', 'upvar')
@@ -107,14 +113,14 @@ def cond_deps(S, fn, bb):
     return out
 
 
-def fn_alts(sl, S, fn, local=0, depth=0, seen=()):
+def fn_alts(sl, S, fn, local=0, depth=0, seen=(), thru=None, optional=False):
     """[(payload, deps)] for every way the value in `local` (default: the return place) can be a success"""
     alts = []
     if depth > 8:
         return alts
     for d in fn.whole_defs(local):
         bb = d[1]
-        cdeps = cond_deps(S, fn, bb)
+        cdeps = cond_deps(S, fn, bb) + loop_deps(sl, S, fn, bb, optional) + acc_deps(sl, S, fn, bb, optional)
         if d[0] == 'stmt':
             rv = d[3]
             if rv['r'] == 'agg' and rv.get('adt') in ('std::result::Result', 'std::option::Option'):
@@ -125,7 +131,7 @@ def fn_alts(sl, S, fn, local=0, depth=0, seen=()):
             if rv['r'] == 'use':
                 pl = op_place(rv['o'])
                 if pl and len(pl) == 1 and not (1 <= pl[0] <= fn.argc) and fn.whole_defs(pl[0]) and (fn.path, pl[0]) not in seen:
-                    for p, ds in fn_alts(sl, S, fn, pl[0], depth + 1, seen + ((fn.path, pl[0]),)):
+                    for p, ds in fn_alts(sl, S, fn, pl[0], depth + 1, seen + ((fn.path, pl[0]),), thru, optional):
                         alts.append((p, cdeps + ds))
                     continue
             v = S._rvalue(fn, rv, set(), 0, None)
@@ -136,12 +142,12 @@ def fn_alts(sl, S, fn, local=0, depth=0, seen=()):
             v = S._call_value(fn, c, set(), 0)
         else:
             continue
-        for p, ds in value_alts(sl, v, depth + 1):
+        for p, ds in value_alts(sl, v, depth + 1, thru):
             alts.append((p, cdeps + ds))
     return alts
 
 
-def closure_alts(sl, clv, args, depth):
+def closure_alts(sl, clv, args, depth, thru=None):
     """success alternatives of calling closure / fn item `clv` (a value in outer terms) with `args`"""
     g = sl.prog.fns.get(clv[1]) if clv and clv[0] in ('closure', 'fnitem') else None
     if g is None:
@@ -154,13 +160,13 @@ def closure_alts(sl, clv, args, depth):
         S, off, m = sl, 0, {}
     for i, a in enumerate(args):
         m[(g.path, off + i)] = a
-    return [(subst(p, m, sl), [subst(x, m, sl) for x in ds]) for p, ds in fn_alts(sl, S, g, 0, depth + 1)]
+    return [(subst(p, m, sl), [subst(x, m, sl) for x in ds]) for p, ds in fn_alts(sl, S, g, 0, depth + 1, (), thru)]
 
 
 PASS_OK = {RES + 'map_err', RES + 'inspect_err', RES + 'inspect', OPT + 'inspect', OPT + 'ok_or', OPT + 'ok_or_else'}
 
 
-def value_alts(sl, v, depth=0):
+def value_alts(sl, v, depth=0, thru=None):
     """success alternatives of a Result/Option-typed value expression"""
     leaf = [(sl.mk_unwrap(v, 1), [v])]
     if depth > 10 or not isinstance(v, tuple) or not v:
@@ -170,7 +176,7 @@ def value_alts(sl, v, depth=0):
         out = []
         for x in v[1]:
             if not _err_like(x):
-                out.extend(value_alts(sl, x, depth + 1))
+                out.extend(value_alts(sl, x, depth + 1, thru))
         return out
     if k == 'agg' and v[1] in ('std::result::Result', 'std::option::Option') and v[2] in ('Ok', 'Some', 'Err', 'None'):
         return [(v[3][0][1], [])] if v[2] in ('Ok', 'Some') and v[3] else []
@@ -179,21 +185,251 @@ def value_alts(sl, v, depth=0):
     name, args = v[1], v[2]
     if name in (RES + 'map', OPT + 'map') and len(args) == 2:
         out = []
-        for p, ds in value_alts(sl, args[0], depth + 1):
+        for p, ds in value_alts(sl, args[0], depth + 1, thru):
             r = sl.apply_closure(args[1], (p,))
             out.append((r if r is not None else ('unknown', 'map-closure'), ds))
         return out
     if name in (RES + 'and_then', OPT + 'and_then') and len(args) == 2:
         out = []
-        for p, ds in value_alts(sl, args[0], depth + 1):
-            for p2, ds2 in closure_alts(sl, args[1], (p,), depth + 1):
+        for p, ds in value_alts(sl, args[0], depth + 1, thru):
+            for p2, ds2 in closure_alts(sl, args[1], (p,), depth + 1, thru):
                 out.append((p2, ds + ds2))
         return out
     if name in (RES + 'and', OPT + 'and') and len(args) == 2:
-        return [(pb, da + db) for _, da in value_alts(sl, args[0], depth + 1) for pb, db in value_alts(sl, args[1], depth + 1)]
+        return [(pb, da + db) for _, da in value_alts(sl, args[0], depth + 1, thru) for pb, db in value_alts(sl, args[1], depth + 1, thru)]
     if name in PASS_OK and args:
-        return value_alts(sl, args[0], depth + 1)
+        return value_alts(sl, args[0], depth + 1, thru)
+    g = sl.prog.fns.get(name)
+    if thru is not None and g is not None and g.kind != 'Closure' and g.ret.startswith(('std::result::Result<', 'std::option::Option<')) and thru(name):
+        # a workspace function: it succeeds the ways its body does (parameters bound to the arguments)
+        r = closure_alts(sl, ('fnitem', name), args, depth + 1, thru)
+        if r:
+            return r
     return leaf
+
+
+# ---- loops over decomposable tables: per-element success dependencies -------------------------------------------------
+IT_NEXT = 'std::iter::Iterator::next'
+OPT_FLATTEN = re.compile(r"^std::iter::Flatten<std::(array::IntoIter|vec::IntoIter|slice::Iter)<('[a-z_]+, )?&?std::option::Option<")
+SETTERS = (OPT + 'get_or_insert', OPT + 'insert', OPT + 'get_or_insert_with')
+
+
+def loops_of(sl, fn):
+    cache = sl.__dict__.setdefault('_c19_loops', {})
+    if fn.path not in cache:
+        cache[fn.path] = find_loops(fn, sl)
+    return cache[fn.path]
+
+
+def elem_keys(fn, L, v):
+    """canonical forms of the sub-values of v that denote the element visited by loop L"""
+    site = (fn.path, L.header)
+    return {canon(x) for x in walk(v) if x[0] == 'unwrap' and x[1][0] == 'call' and x[1][1] == IT_NEXT and len(x[1]) == 4 and x[1][3] == site}
+
+
+def elements(sl, fn, L, optional=False):
+    """[(element value, always there?)] when the collection iterated by L is a table of concrete elements (private helpers
+    returning the table inlined); with optional=True also `[a, b].into_iter().flatten()` over Options: the payload of
+    each entry that is Some.  None when the collection does not decompose (or is filtered in any other way)."""
+    if L.collection is None:
+        return None
+    coll = nf(sl, L.collection)
+    al = iters.alts(sl, coll)
+    if al and not iters.trivial(al, coll) and all(f is None and not fl for _, f, fl in al):
+        return [(e, True) for e, _, _ in al]
+    if optional:
+        v = strip(coll)
+        while v[0] == 'call' and len(v[2]) == 1 and v[1].endswith(iters.SAME_ELEMS) and not v[1].startswith(IT):
+            v = strip(v[2][0])
+        if v[0] == 'call' and v[1] == IT + 'flatten' and len(v[2]) == 1 and len(v) == 4 and v[3]:
+            g = sl.prog.fns.get(v[3][0])
+            c = g.call_at(v[3][1]) if g is not None else None
+            if c is not None and OPT_FLATTEN.match(c.dty or ''):
+                inner = iters.alts(sl, v[2][0])
+                if inner and all(f is None and not fl for _, f, fl in inner):
+                    return [(sl.mk_unwrap(e, 1), False) for e, _, _ in inner]
+    return None
+
+
+def per_element(sl, fn, L, v, optional=False):
+    """v (a value mentioning L's element) once per element of L's table; None if the table does not decompose"""
+    els = elements(sl, fn, L, optional)
+    keys = elem_keys(fn, L, v)
+    if els is None or not keys:
+        return None
+    return [subst(v, {'__repl__': [(k, e) for k in keys]}, sl) for e, _ in els]
+
+
+def _is_next_cond(fn, L, cd):
+    s = cd.subject if cd.subject is not None else cd.value
+    s = strip(s) if s is not None else ('unknown',)
+    return s[0] == 'call' and s[1] == IT_NEXT and len(s) == 4 and s[3] == (fn.path, L.header)
+
+
+def _reach_avoiding(fn, start, avoid):
+    seen, work = set(), [start]
+    while work:
+        b = work.pop()
+        if b in seen or b == avoid:
+            continue
+        seen.add(b)
+        work.extend(fn.succs(b))
+    return seen
+
+
+def _try_subject(s):
+    if s[0] == 'call' and s[1] == 'std::ops::Try::branch' and s[2]:
+        s = s[2][0]
+    return s
+
+
+def loop_deps(sl, S, fn, bb, optional=False):
+    """values that were Ok / Some because bb is only reached after a loop over a table ran to exhaustion and every
+    completed iteration passed an Ok-test on them (`for x in [a, b] { f(x)?; }`): one value per element"""
+    out = []
+    for L in loops_of(S, fn):
+        if bb in L.body or getattr(L, 'exhaust', None) is None or not edge_dominates(fn, L.exhaust[0], L.exhaust[1], bb):
+            continue
+        per = None
+        for latch in L.latches:
+            cur = {}
+            for cd in conditions(fn, latch, S):
+                if cd.sw_bb in L.body and cd.kind == 'variant' and cd.outcome and set(cd.outcome) <= OKISH and cd.subject is not None \
+                        and not _is_next_cond(fn, L, cd):
+                    sv = _try_subject(cd.subject)
+                    cur[canon(sv)] = sv
+            per = cur if per is None else {k: x for k, x in per.items() if k in cur}
+        for sv in (per or {}).values():
+            out.extend(per_element(sl, fn, L, sv, optional) or ())
+    return out
+
+
+def accumulator(fn, local):
+    """is `local` a monotone Option accumulator — initialised to None once (outside any loop) and from then on only ever
+    handed to operations that leave it Some (`get_or_insert`, `insert`, `= Some(..)`)?  -> blocks of those operations, or None"""
+    if fn.partial_defs(local) or not (fn.local_ty(local) or '').startswith('std::option::Option<'):
+        return None
+    inits, setters = [], []
+    for d in fn.whole_defs(local):
+        rv = d[3] if d[0] == 'stmt' else None
+        if rv is None or rv['r'] != 'agg' or rv.get('adt') != 'std::option::Option':
+            return None
+        (inits if rv.get('variant') == 'None' else setters).append(d[1])
+    if len(inits) != 1 or fn.in_loop(inits[0]):
+        return None
+
+    def borrowed(ref_local, depth=0):
+        """the &mut borrow held in ref_local is used exactly once: as the receiver of a setter (reborrows followed)"""
+        uses = [u for u in fn.uses_of(ref_local) if u[1] != 'drop']
+        if len(uses) != 1 or depth > 3 or len(fn.whole_defs(ref_local)) != 1:
+            return False
+        bi, kind, idx, how, pl = uses[0]
+        if kind == 'arg' and idx == 0 and len(pl) == 1:
+            c = fn.call_at(bi)
+            if c is not None and not c.indirect and c.is_(*SETTERS):
+                setters.append(bi)
+                return True
+            return False
+        if kind == 'stmt' and how == 'refmut' and pl[1:] == ['.*']:
+            tgt = fn.blocks[bi]['s'][idx][1]
+            return len(tgt) == 1 and borrowed(tgt[0], depth + 1)
+        return False
+    for bi, kind, idx, how, pl in fn.uses_of(local):
+        if kind in ('drop', 'switch') or how in ('discr', 'ref', 'm', 'c'):
+            continue
+        if kind == 'stmt' and how == 'refmut' and len(pl) == 1:
+            tgt = fn.blocks[bi]['s'][idx][1]
+            if len(tgt) == 1 and borrowed(tgt[0]):
+                continue
+        return None
+    return setters
+
+
+def acc_deps(sl, S, fn, bb, optional=False):
+    """values that were Ok because bb is only reached with an empty error accumulator: every operation that fills the
+    accumulator sits on the Err edge of a test of such a value (inside a loop over a table that ran to exhaustion before
+    the accumulator is inspected: one value per element)"""
+    out = []
+    for cd in conditions(fn, bb, S):
+        if not (cd.kind == 'variant' and cd.outcome and set(cd.outcome) <= {'None'}):
+            continue
+        di = _discr_info(fn, cd.sw_bb, fn.blocks[cd.sw_bb]['t']['o'])
+        if not di or len(di[0]) != 1:
+            continue
+        setters = accumulator(fn, di[0][0])
+        if not setters:
+            continue
+        deps = []
+        for sb in setters:
+            Ls = [L for L in loops_of(S, fn) if sb in L.body]
+            if len(Ls) > 1:
+                deps = None
+                break
+            L = Ls[0] if Ls else None
+            if L is not None and (cd.sw_bb in L.body or getattr(L, 'exhaust', None) is None or not edge_dominates(fn, L.exhaust[0], L.exhaust[1], cd.sw_bb)):
+                deps = None
+                break
+            if L is not None:
+                inner = [x for x in conditions(fn, sb, S) if x.sw_bb in L.body and not _is_next_cond(fn, L, x)]
+            else:
+                inner = [x for x in conditions(fn, sb, S) if not edge_dominates(fn, x.sw_bb, x.target, cd.sw_bb)]
+            if len(inner) != 1:
+                deps = None
+                break
+            x = inner[0]
+            ok = x.kind == 'variant' and x.outcome and set(x.outcome) <= {'Err'} and (x.enum or '').startswith('std::result::Result') and x.subject is not None
+            if ok and L is not None:
+                # the test runs in every completed iteration, and its Err edge cannot get back to the loop head around the setter
+                ok = all(fn.dominates(x.sw_bb, l) for l in L.latches) and L.header not in _reach_avoiding(fn, x.target, sb)
+            elif ok:
+                # straight-line: the test runs before the accumulator is inspected, and its Err edge cannot get there around the setter
+                ok = fn.dominates(x.sw_bb, cd.sw_bb) and cd.sw_bb not in _reach_avoiding(fn, x.target, sb)
+            if not ok:
+                deps = None
+                break
+            sv = _try_subject(x.subject)
+            if L is not None:
+                pe = per_element(sl, fn, L, sv, optional)
+                if pe is None:
+                    deps = None
+                    break
+                deps.extend(pe)
+            else:
+                deps.append(sv)
+        if deps:
+            out.extend(deps)
+    return out
+
+
+def unroll(E, effs, must=False):
+    """effects whose arguments mention the element of a loop over a table that only decomposes once private helpers are
+    inlined (`for w in self.writers() { w.flush()? }`): one effect per element, the element substituted"""
+    sl = E.slicer
+    out = []
+    for e in effs:
+        fn = e.call.fn if e.call is not None else None
+        done = False
+        if fn is not None and e.args:
+            for L in loops_of(sl, fn):
+                if e.call.bb not in L.body or e.call.bb == L.header:
+                    continue
+                keys = set()
+                for a in e.args:
+                    keys |= elem_keys(fn, L, a)
+                els = elements(sl, fn, L) if keys else None
+                if els is None:
+                    continue
+                for elem, _ in els:
+                    m = {'__repl__': [(k, E.subst(elem, e.mapping) if e.mapping else elem) for k in keys]}
+                    args = tuple(subst(a, m, sl) for a in e.args)
+                    ne = Eff(e.kind, subst(e.path, m, sl) if e.path is not None else None, e.call, e.chain, e.must, None, args)
+                    ne.mapping, ne.implied = e.mapping, e.implied
+                    out.append(ne)
+                done = True
+                break
+        if not done:
+            out.append(e)
+    return out
 
 
 # ---- effects ------------------------------------------------------------------------------------------------------
